@@ -71,6 +71,44 @@ def crash_never(prop, crash):
     return None
 
 
+_RACE_FRAME = re.compile(r"^  (\S+)\(.*\)\n\s+(\S+?):(\d+)", re.M)
+
+
+def race_reports(prop, stderr):
+    """Turns the race detector's reports into C20 violations. Only reports in which at least one of the
+    two conflicting accesses happens in robustirc code proper (not in harness files, dependencies or the
+    runtime) count; the signature is the pair of robustirc functions performing the accesses."""
+    out = []
+    seen = set()
+    for block in stderr.split("WARNING: DATA RACE")[1:]:
+        block = block.split("==================")[0]
+        # the two access stacks precede the "Goroutine N (...) created at:" parts
+        head = re.split(r"\nGoroutine \d+ \(", block)[0]
+        stacks = re.split(r"\n\n", head.strip())
+        funcs = []
+        for st in stacks[:2]:
+            fn = None
+            for m in _RACE_FRAME.finditer(st + "\n"):
+                name, path = m.group(1), m.group(2)
+                if path.startswith("/opt/veriftools/go") or "/src/runtime/" in path or "/src/sync/" in path:
+                    continue  # runtime / sync internals performing the access on behalf of the caller
+                # the first frame outside the Go runtime is the code that performs the access
+                if path.startswith("/repo/") and "zz_verif" not in path and "/verifsim/" not in path:
+                    fn = name.split("/")[-1]
+                break
+            funcs.append(fn)
+        if not any(funcs):
+            continue
+        a, b = [f or "(outside robustirc)" for f in (funcs + [None, None])[:2]]
+        sig = "race:" + "|".join(sorted([a, b]))
+        if sig in seen:
+            continue
+        seen.add(sig)
+        out.append({"property": "C20", "class": "data-race", "sig": sig,
+                    "detail": "the race detector reports conflicting accesses by %s and %s:\n%s" % (a, b, head.strip()[:1800]), "step": -1})
+    return out
+
+
 def crash_fsm(prop, crash):
     """FSM.Apply turns a panic of the state machine into 'mark entry as message of death' + glog.Fatalf
     (process exit 255). A worker that died this way while applying a generated entry is a C06 violation."""
@@ -115,6 +153,20 @@ C07_ADD = {
 }
 
 ENGINES = {
+    "e2race": {
+        "pkg": ".",
+        "virtual": ["core"],
+        "add": E2_ADD,
+        "modfile": "robustinternal",
+        "race": True,
+        "gomaxprocs": 4,
+        "fixed_gomaxprocs": True,
+        "chunk": {"quick": 1, "thorough": 1},
+        "env": {"GORACE": "halt_on_error=0 exitcode=0 history_size=3"},
+        "stderr_classifier": "race_reports",
+        "crash_classifier": "crash_fsm",
+        "kind": "E2 built with -race: concurrent operation groups inside the simulated cluster; oracle = Go race detector",
+    },
     "c07": {
         "pkg": ".",
         "virtual": ["core"],
@@ -394,6 +446,23 @@ _add_e2_part("C17", 400, 40000,
     "cluster scenarios (sessions never end in them): every client request carries the right secret, readers connect to followers that may not have applied the session yet (slow-node and partition faults widen the lag); non-trivial = >=2 GetMessages connections on a 3-node network",
     "no node ever answers 404 ('session gone') for a live session; lagging nodes answer 500/proxy instead.",
     ["lagging_node_said_not_yet_seen", "slow_nodes"])
+
+CHECKS["C20"] = {
+    "engine": "e2race",
+    "runs": {"quick": 96, "thorough": 6000},
+    "level": "exploration",
+    "rule": ("scenario = cluster scenario (1 or 3 nodes, clients, faults incl. forced snapshots and follower restarts with TrailingLogs 0 so that raft-initiated Restore happens) plus a stress actor that every 0.1-1s of virtual time starts a group of 4-7 operations in the same instant: "
+             ">=2 POSTs for the same session, GetMessages, status/sessions/state/getmessage/irclog pages, config read, forced snapshot; the expiry sweep runs every 10s on the leader; one OS process per scenario, built with -race, GOMAXPROCS=4; "
+             "non-trivial = >=3 groups executed; distinct = event-trace digest"),
+    "probes": ["stress_groups", "stress_ops", "forced_snapshots", "fsm_restores", "expiry_sweeps_on_leader"],
+    "components": CHECKS["C05"]["components"],
+    "claim": ("Go's race detector observes every execution of the simulated cluster under seeded concurrent operation groups; each report whose conflicting access lies in robustirc code is a violation identified by the pair of functions. "
+              "Detection is happens-before based, so a racy pair is reported whenever both accesses occur unordered in a run, not only when they collide in time."),
+    "note": "dynamic detector: finds races only on paths the groups execute; the schedule inside a group is the Go scheduler's (P=4), not seeded; groups, victims, routes and fault placement are.",
+    "technique": "deterministic simulation as the driver of seeded concurrent operation groups; oracle = Go race detector (happens-before)",
+    "assumptions": ["virtual sleeps between groups do not add happens-before edges (measured in the design phase)"],
+    "worker_timeout": {"quick": 600, "thorough": 1800},
+}
 
 CHECKS["C11"] = {
     "engine": "e2",
